@@ -229,12 +229,13 @@ CHECKS["C08"] = {
         H("opentype/gdef", "c08.go", "VerifH_C08_gdef", ["read"], quick={"timeout": 280, "shards": 2}),
         H("opentype/gtab", _G, "VerifH_C08_gsub", ["read"], quick={"timeout": 280}),
         H("opentype/gtab", _G, "VerifH_C08_gpos", ["read"], quick={"timeout": 280}),
+        H("opentype/gtab", _G, "VerifH_C08_gpos2", ["read"], quick={"timeout": 280, "shards": 4}),
         H("opentype/gtab", _G, "VerifH_C08_context", ["read"], quick={"params": {"ctxbig": 0}, "timeout": 280, "shards": 6}, thorough={"params": {"ctxbig": 1}, "timeout": 2400, "shards": 6}),
         H("opentype/gtab", _G, "VerifH_C08_lookuplist", ["read"], quick={"params": {"maxlookups": 2}, "timeout": 280}, thorough={"params": {"maxlookups": 3}, "timeout": 2400}),
     ],
-    "bounds": {"quick": "coverage tables of 0..4 symbolic glyph ids over the full 16-bit range, arbitrary coverage bytes (<=12); class definitions of 0..3 glyphs inside an 8-id window with symbolic classes, arbitrary bytes (<=12); GSUB 1.1/1.2/2.1/3.1/4.1, GPOS 1.1/1.2/2.1, (chained) sequence context formats 1, 2 and 3 (class based formats with nil / empty / one-rule rule sets per class) with 1..2 coverage glyphs, <=2 rules/ligatures/alternates, <=2 nested actions, all ids/values symbolic; lookup lists of 0..2 lookups with symbolic flags and mark filtering set; GDEF tables with 0..2 classed glyphs, a mark attachment class and 0..2 mark glyph sets of 0..2 symbolic glyphs",
+    "bounds": {"quick": "coverage tables of 0..4 symbolic glyph ids over the full 16-bit range, arbitrary coverage bytes (<=12); class definitions of 0..3 glyphs inside an 8-id window with symbolic classes, arbitrary bytes (<=12); GSUB 1.1/1.2/2.1/3.1/4.1, GPOS 1.1/1.2/2.1/2.2/3.1/4.1/6.1, (chained) sequence context formats 1, 2 and 3 (class based formats with nil / empty / one-rule rule sets per class) with 1..2 coverage glyphs, <=2 rules/ligatures/alternates, <=2 nested actions, all ids/values symbolic; lookup lists of 0..2 lookups with symbolic flags and mark filtering set; GDEF tables with 0..2 classed glyphs, a mark attachment class and 0..2 mark glyph sets of 0..2 symbolic glyphs",
                "thorough": "6 coverage glyphs, 5 classdef glyphs, 3 lookups"},
-    "outside": ["GPOS 2.2/3/4/5/6, GSUB 8.1 round trips", "extension subtables for lookup lists beyond 64 KiB", "gtab.Info with script/language/feature lists (x/text language tags)"],
+    "outside": ["GPOS 5 and GSUB 8.1 round trips, GPOS 2.2/3.1/4.1/6.1 beyond 2x2 classes / 2 glyphs per coverage", "extension subtables for lookup lists beyond 64 KiB", "gtab.Info with script/language/feature lists (x/text language tags)"],
     "assumptions": ["coverage tables have indices 0..n-1 in increasing glyph order (value domain)", "class 0 entries are not stored (normal form)"],
 }
 
@@ -324,6 +325,8 @@ CHECKS["C18"] = {
         H("header", ["c18.go", "c03.go"], "VerifH_C18_read", ["truncated", "failing directory"], quick={"timeout": 280, "shards": 2}),
         H("parser", "c17.go", "VerifH_C17_history", ["done"], quick={"params": {"steps": 2, "shorts": 1}, "timeout": 280, "shards": 6}),
         H("cff", "c18.go", "VerifH_C18_cffwrite", ["success", "fault"], quick={"timeout": 280}),
+        H(".", ["c18.go", "c16.go", "common.go"], "VerifH_C18_fontwrite", ["success", "fault"], quick={"timeout": 280, "shards": 2}),
+        H(".", ["c18.go", "c16.go", "common.go"], "VerifH_C18_fontread", ["complete", "fault"], quick={"timeout": 280, "shards": 2}),
     ],
     "bounds": {"quick": "containers with 1..3 tables (optional 54-byte head, a table of 0/1/4/5 bytes, optionally a third of 2/3/8 bytes, symbolic contents): a writer accepting exactly k bytes for every k in 0..len+4 (k symbolic); the written file truncated to every k < len; a ReaderAt returning a non-EOF error for any access touching offset >= k, for every k; parser short reads (shared with C17, first 6 file lengths); (*cff.Font).Write of a concrete 2-glyph font into a writer failing after k bytes, every k",
                "thorough": "same"},
